@@ -10,6 +10,7 @@ import (
 	"unicode"
 	"unicode/utf8"
 
+	"github.com/kstenerud/go-concise-encoding/builder"
 	"github.com/kstenerud/go-concise-encoding/ce"
 	"github.com/kstenerud/go-concise-encoding/ce/events"
 	"github.com/kstenerud/go-concise-encoding/configuration"
@@ -457,6 +458,31 @@ func init() {
 			expect := m.zeroOmitted(c.Type, c.Val)
 			if err := gen.Check(rv, c.Type, expect, gen.EqMode{BigFloatTol: true}, "$"); err != nil {
 				return fmt.Errorf("unmarshal side: %v\ndoc=%s\ntype=%v", err, docdump(c.Format, bytesDoc), c.Type)
+			}
+			// event route: the same events played through the validator straight into a builder (what an
+			// iterator or any other event source does): string keys arrive as string events here, while both
+			// decoders deliver them as byte arrays
+			var built interface{}
+			var perr error
+			pidx := -1
+			po := ctx.Guard(func() {
+				b := builder.NewSession(nil, cfg).NewBuilderFor(template)
+				if pidx, perr = ev.Play(doc, ce.NewRules(b, cfg)); pidx < 0 {
+					built = b.GetBuiltObject()
+				}
+			})
+			if po.TimedOut || po.Panic != nil {
+				return fmt.Errorf("unmarshal side, event route: %v\n%s", po, ev.ListString(doc))
+			}
+			if pidx >= 0 {
+				return fmt.Errorf("unmarshal side, event route: event %d rejected: %v\n%s\ntype=%v", pidx, perr, ev.ListString(doc), c.Type)
+			}
+			bv := reflect.ValueOf(built)
+			if bv.Kind() == reflect.Ptr && !bv.IsNil() {
+				bv = bv.Elem()
+			}
+			if err := gen.Check(bv, c.Type, expect, gen.EqMode{}, "$"); err != nil {
+				return fmt.Errorf("unmarshal side, event route (events played into a builder): %v\n%s\ntype=%v", err, ev.ListString(doc), c.Type)
 			}
 			return nil
 		},
